@@ -539,6 +539,10 @@ func (c *Ctx) constMapUpdates(pkg string, fns []string) map[string]map[string]st
 			}
 			frontier = next
 		}
+		// closures defined in those functions belong to them
+		for i := 0; i < len(scan); i++ {
+			scan = append(scan, scan[i].AnonFuncs...)
+		}
 		for _, f := range scan {
 			instrsOf(f, func(in ssa.Instruction) {
 				mu, ok := in.(*ssa.MapUpdate)
@@ -783,4 +787,57 @@ func ruleCheckErrorsPropagate(c *Ctx, rule string) {
 		})
 	}
 	r.Floor(rule, "calls of check functions", ncalls, 12)
+}
+
+// ruleNoExpressionRewrites implements C11.R5: between the parser and the evaluator nobody builds process statements or expressions.
+// The generator stores the parsed statements as they are; a pass that constructs new nodes (constant folding, algebraic
+// simplification) decides, outside the evaluator, what an operator applied to typed operands means, and the documented coercions
+// (`'7' * 1` is the number 7) are lost with the node that was dropped.
+func ruleNoExpressionRewrites(c *Ctx, rule string) {
+	r := c.R
+	var built []string
+	first := ""
+	n := 0
+	isProcessNode := func(t types.Type) bool {
+		n, ok := deref(t).(*types.Named)
+		return ok && n.Obj().Pkg() != nil && n.Obj().Pkg().Name() == "ast" && strings.HasPrefix(n.Obj().Name(), "AstProcess")
+	}
+	for _, pkg := range []string{"bytecode", "engine"} {
+		for _, fn := range c.SrcFuncs(pkg) {
+			instrsOf(fn, func(in ssa.Instruction) {
+				a, ok := in.(*ssa.Alloc)
+				if !ok || !isProcessNode(a.Type()) {
+					return
+				}
+				if _, isStruct := deref(a.Type()).Underlying().(*types.Struct); !isStruct {
+					return
+				}
+				n++
+				// a literal: some field of the allocation is stored in this function
+				lit := false
+				for _, ref := range *a.Referrers() {
+					if fa, ok := ref.(*ssa.FieldAddr); ok {
+						for _, r2 := range *fa.Referrers() {
+							if st, ok := r2.(*ssa.Store); ok && st.Addr == ssa.Value(fa) {
+								lit = true
+							}
+						}
+					}
+				}
+				if lit {
+					built = append(built, fmt.Sprintf("%s builds a %s [%s]", fnName(fn), types.TypeString(deref(a.Type()), shortQual), c.pos(a.Pos())))
+					if first == "" {
+						first = c.pos(a.Pos())
+					}
+				}
+			})
+		}
+	}
+	r.Stats["process_node_locals_outside_the_parser"] = n
+	ob := r.Ob(rule, "no process statement or expression is built outside the parser", first)
+	if len(built) == 0 {
+		ob.OKnt("packages bytecode and engine construct no AstProcess* node: the evaluator sees the expression the parser produced")
+	} else {
+		ob.Bad(strings.Join(uniq(built), "; ") + ": the tree the evaluator runs is no longer the tree that was written, so the documented result of an operator on given operand types can change")
+	}
 }
